@@ -64,7 +64,14 @@ HistDrift(c, l) ==
      ELSE IF st.ret = "ok"
           THEN (IF SpecPre(pre, a) THEN {} ELSE {"spec-disabled-but-returned:" \o a.a}) \cup
                (IF SpecPre(pre, a) /\ SpecHasDo(a) /\ ~SameState(Norm(st.post), SpecDo(pre, a))
-                THEN {"next-state-differs:" \o a.a} ELSE {})
+                THEN {"next-state-differs:" \o a.a} ELSE {}) \cup
+               \* into_bench names its helper gates with fresh uuids: the model is instantiated with
+               \* the helper labels found in the recorded post-state
+               (IF a.a = "into_bench" /\ SpecPre(pre, a) /\ WF1(st.post) /\
+                   ~SameState(Norm(st.post),
+                      DoIntoBench(pre, LAMBDA gl : LET fresh == OpSet(st.post, gl) \ DOMAIN pre.g
+                                                  IN IF fresh = {} THEN "?" ELSE CHOOSE x \in fresh : TRUE))
+                THEN {"next-state-differs:into_bench"} ELSE {})
           ELSE (IF SpecPre(pre, a) /\ SpecHasDo(a) THEN {"spec-enabled-but-raised:" \o a.a} ELSE {})
 
 (************************  C02 verdict clauses  ****************************)
